@@ -1346,7 +1346,8 @@ class Canon:
                 blk["expr"] = last["init"]
         for c in [n for n in _walk(body) if n.get("k") == "Closure" and n.get("captures")]:
             mentioned = {x.get("v") for x in _walk(c["body"]) if x.get("k") == "Local"}
-            kept = [cp for cp in c["captures"] if cp.get("v") in mentioned or cp.get("v") is None]
+            names_ = {x.get("name") for x in _walk(c["body"]) if x.get("k") == "Local"}       # (an inlined helper's locals were renumbered: fall back on the name)
+            kept = [cp for cp in c["captures"] if cp.get("v") in mentioned or cp.get("v") is None or cp.get("var") in names_]
             if len(kept) != len(c["captures"]):
                 c["captures"] = kept
 
